@@ -23,7 +23,8 @@ Fixpoint stage1 (p : op) : bool :=
   | OExtend s _ wd w => stage1 s && negb wd && window_is_empty w
   | OSelectRows s _ | OSelectCols s _ | ODropCols s _ | ORename s _ | OMapCols s _ _ | OOrder s _ _ _ => stage1 s
   | OConcat a b idc _ _ => stage1 a && stage1 b && match idc with Some _ => concat_src_ok a && concat_src_ok b | None => true end
-  | OProject _ _ _ | OJoin _ _ _ _ _ => false
+  | OProject s ops gb => stage1 s && negb (is_nil gb && is_nil ops)       (* the builder: "project must have ops or group_by" *)
+  | OJoin _ _ _ _ _ => false
   end.
 
 (* every table description of p is bound to a stored table with exactly the declared columns *)
@@ -42,6 +43,7 @@ Proof.
     destruct (bok_extend_full _ _ _ _ BO) as [BOs _]. specialize (IH BOs St). simpl. intros X.
     destruct (column_names s) as [|c0 t] eqn:E; [congruence|]. assert (In c0 (ext_cols (c0 :: t) (map fst ops))) as I by (apply in_ext_cols; left; left; reflexivity).
     rewrite X in I. destruct I.
+  - apply andb_true_iff in St. destruct St as [_ St]. simpl. destruct gb; [destruct ops; [discriminate|discriminate]|discriminate].
   - apply bok_select_rows in BO. exact (IH BO St).
   - simpl in BO. rewrite !andb_true_iff in BO. simpl. destruct cs; [destruct BO as [[[_ B] _] _]; discriminate|discriminate].
   - simpl in BO. rewrite !andb_true_iff in BO. destruct BO as [_ B]. intros X. simpl in X. rewrite X in B. discriminate.
